@@ -431,9 +431,9 @@ func init() {
 		Units: func(tier string) []Unit {
 			us := []Unit{{Name: "enum-votes", Enum: enumC06}}
 			if tier == "thorough" {
-				return append(us, scUnits(2, "elect3", "crash3", "majority-restart", "revote3")...)
+				return append(us, scUnits(2, "elect3", "crash3", "crash3-inmem", "majority-restart", "revote3")...)
 			}
-			return append(us, scUnits(1, "elect3", "crash3", "majority-restart", "revote3")...)
+			return append(us, scUnits(1, "elect3", "crash3", "crash3-inmem", "majority-restart", "revote3")...)
 		}})
 }
 
